@@ -1075,6 +1075,15 @@ func (broker *Broker) startTrack(wg *sync.WaitGroup) {
 		log.Debug("Track loop ...")
 		// Block by default
 		wait = nil
+		if in == nil {
+			// Nothing more will be transmitted, so a file that is still
+			// incomplete (e.g. it was removed while being sent) never will be
+			for key, pFile := range progress {
+				if pFile.sent < pFile.size {
+					delete(progress, key)
+				}
+			}
+		}
 		if len(progress) == 0 {
 			if in == nil {
 				// We can safely return now that our Q is empty
